@@ -104,3 +104,4 @@ package webrtc
 //@ trusted
 //@ props C30
 //@ ensures err == nil ==> ret0 != nil
+
